@@ -1,16 +1,20 @@
 import PPVerif.Driver.Proto
-import PPVerif.Model.PFDefs
+import PPVerif.Model.ElemDefs
 import Mathlib.Algebra.QuadraticAlgebra.Basic
+import Mathlib.Tactic.Linarith
 import Mathlib.Algebra.Order.Field.Rat
-open PPVerif PPVerif.Proto PPVerif.PF
+open PPVerif PPVerif.Proto PPVerif.PF PPVerif.Elem
 
 /-
   network-level requests over the Gaussian rationals ℚ[i]:
   net <nBr> {f t yff.re yff.im yft.re yft.im ytf.re ytf.im ytt.re ytt.im}… <nN> {node v.re v.im ysh.re ysh.im}…
       -> per branch "sf.re sf.im st.re st.im", then per node "scalc.re scalc.im sshunt.re sshunt.im sbranches.re sbranches.im"
   zip <mean|abs|spec> <other> <vm> <n> {p ci cz}…   -> bus load under that law
+  bry <zf> <zt> <ycf> <yct> <tap>   (5 complex numbers = 10 rationals)   -> yff yft ytf ytt
+  wye <za> <zb> <y>                 (3 complex numbers)                   -> z yfHalf ytHalf
 -/
 abbrev GQ := QuadraticAlgebra ℚ (-1) 0
+instance : Fact (∀ r : ℚ, r ^ 2 ≠ -1 + 0 * r) := ⟨fun r h => by nlinarith [sq_nonneg r]⟩
 
 def cx? (a b : String) : Option GQ := do some ⟨← rat? a, ← rat? b⟩
 def showCx (z : GQ) : String := s!"{showRat z.re} {showRat z.im}"
@@ -65,6 +69,20 @@ def step (line : String) : String :=
         else if law == "abs" then showRat (busLoadAbs ls o v)
         else if law == "spec" then showRat (busLoadSpec ls o v) else "bad-op"
       | none => "bad-op"
+    | _, _, _ => "bad-op"
+  | ["bry", a, b, c, d, e, f, g, h, i, j] =>
+    match cx? a b, cx? c d, cx? e f, cx? g h, cx? i j with
+    | some zf, some zt, some ycf, some yct, some tap =>
+      if zf == 0 || zt == 0 || tap == 0 then "bad-op" else
+      let br := branchY 0 1 (⟨zf, zt, ycf, yct, tap⟩ : BrPar GQ)
+      s!"{showCx br.yff} {showCx br.yft} {showCx br.ytf} {showCx br.ytt}"
+    | _, _, _, _, _ => "bad-op"
+  | ["wye", a, b, c, d, e, f] =>
+    match cx? a b, cx? c d, cx? e f with
+    | some za, some zb, some y =>
+      if za == 0 || zb == 0 || y == 0 then "bad-op" else
+      let p := wyeDelta za zb y
+      s!"{showCx p.z} {showCx p.yfHalf} {showCx p.ytHalf}"
     | _, _, _ => "bad-op"
   | _ => "bad-op"
 
